@@ -665,31 +665,80 @@ func (exec *Executor) executeDecimalMethod(
 		}
 	}
 
-	// Round to the scale. Powers of ten with a negative exponent are inexact
-	// as floats, so scale by the positive power in the appropriate direction.
-	// A scale that scales num beyond the range of float64 is too fine to
-	// change it, and one that scales it down to nothing rounds it to zero.
-	rounded := num
-	if scale >= 0 {
-		ratio := math.Pow10(scale)
-		if scaled := num * ratio; !math.IsInf(ratio, 0) && !math.IsInf(scaled, 0) {
-			rounded = math.Round(scaled) / ratio
-		}
-	} else if ratio := math.Pow10(-scale); math.IsInf(ratio, 0) {
-		rounded = 0
-	} else {
-		rounded = math.Round(num/ratio) * ratio
-	}
-
-	// Make sure it's got no more than precision-scale digits before the
-	// decimal point.
-	if rounded != 0 && math.Abs(rounded) >= math.Pow10(precision-scale) {
+	rounded, ok := roundDecimal(value, num, precision, scale)
+	if !ok {
 		return 0, fmt.Errorf(
 			`%w: argument "%v" of jsonpath item method %v is invalid for type %v`,
 			ErrVerbose, value, op, "numeric",
 		)
 	}
 	return rounded, nil
+}
+
+// roundDecimal rounds num to scale decimal places, half away from zero, and
+// returns false if the result needs more than precision-scale digits before
+// the decimal point (or is beyond the range of float64). The arithmetic is
+// exact: computing Round(num*10^scale)/10^scale in floating point is wrong
+// once num*10^scale reaches 2^53 (95 became 95.00000000000001 at scale 20),
+// does nothing for a scale above 308 and rounds some ties by their decimal
+// spelling and others by their binary value. A float64 or int64 is taken at
+// its exact value; a json.Number or string, whose nearest double is num, at
+// the value of its decimal text.
+func roundDecimal(value any, num float64, precision, scale int) (float64, bool) {
+	exact := new(big.Rat).SetFloat64(num)
+	if num != 0 {
+		// (A text that underflows to zero is zero at any scale that matters,
+		// and its exponent may be too large to expand.)
+		switch val := value.(type) {
+		case json.Number:
+			if r, ok := new(big.Rat).SetString(val.String()); ok {
+				exact = r
+			}
+		case string:
+			if r, ok := new(big.Rat).SetString(val); ok {
+				exact = r
+			}
+		}
+	}
+
+	pow10 := func(n int) *big.Int {
+		return new(big.Int).Exp(big.NewInt(10), big.NewInt(int64(n)), nil) //nolint:mnd
+	}
+
+	// scaled = exact * 10^scale
+	scaled := new(big.Rat)
+	if scale >= 0 {
+		scaled.Mul(exact, new(big.Rat).SetInt(pow10(scale)))
+	} else {
+		scaled.Quo(exact, new(big.Rat).SetInt(pow10(-scale)))
+	}
+
+	// Round half away from zero: add a half to the magnitude and truncate.
+	half := big.NewRat(1, 2) //nolint:mnd
+	if scaled.Sign() < 0 {
+		scaled.Sub(scaled, half)
+	} else {
+		scaled.Add(scaled, half)
+	}
+	units := new(big.Int).Quo(scaled.Num(), scaled.Denom())
+
+	// No more than precision digits in all.
+	if new(big.Int).Abs(units).Cmp(pow10(precision)) >= 0 {
+		return 0, false
+	}
+
+	rounded := new(big.Rat).SetInt(units)
+	if scale >= 0 {
+		rounded.Quo(rounded, new(big.Rat).SetInt(pow10(scale)))
+	} else {
+		rounded.Mul(rounded, new(big.Rat).SetInt(pow10(-scale)))
+	}
+
+	result, _ := rounded.Float64()
+	if math.IsInf(result, 0) {
+		return 0, false
+	}
+	return result, true
 }
 
 // intCallback defines a callback to carry out an operation on an int64.
